@@ -1,8 +1,152 @@
 (** C18 - rational approximation functions return the optimal fraction they promise.
-    ONLY statements pinned here; proofs live in Dashu.Ratio.*. *)
-From Dashu Require Import Base.Prelude Ratio.SimplestSpec Ratio.SimplestModel Ratio.SimplerOrder.
+    ONLY statements pinned here; proofs live in Dashu.Ratio.*.  Fractions are pairs (n, d) : Z * Z
+    with d > 0; [fval_lt]/[fval_eq] compare values by cross multiplication. *)
+From Dashu Require Import Base.Prelude Float.RoundSpec Ratio.SimplestSpec Ratio.SimplestModel Ratio.SimplerOrder
+  Ratio.SimplestProof Ratio.SimplestAsis Ratio.FareyProof Ratio.FareyNext Ratio.FareyNearest Ratio.SimplestFindings.
 Open Scope Z_scope.
 
+(** ** is_simpler_than *)
 Theorem C18_is_simpler_than : forall x y, is_simpler_than_asis x y = simpler x y.
 Proof. exact is_simpler_than_asis_spec. Qed.
 Print Assumptions C18_is_simpler_than.
+
+Theorem C18_simpler_keys : forall x y, simpler x y = true <->
+  snd x < snd y \/ (snd x = snd y /\ (Z.abs (fst x) < Z.abs (fst y) \/ (Z.abs (fst x) = Z.abs (fst y) /\ fst y < 0 < fst x))).
+Proof. exact simpler_keys. Qed.
+Print Assumptions C18_simpler_keys.
+
+Theorem C18_simpler_strict_total_order :
+  (forall x, simpler x x = false) /\
+  (forall x y, simpler x y = true -> simpler y x = false) /\
+  (forall x y z, simpler x y = true -> simpler y z = true -> simpler x z = true) /\
+  (forall x y, x <> y -> simpler x y = true \/ simpler y x = true).
+Proof. exact simpler_strict_total_order. Qed.
+Print Assumptions C18_simpler_strict_total_order.
+
+(** ** simplest_in *)
+Theorem C18_simplest_in_spec_optimal : forall l u, 0 < snd l -> 0 < snd u -> ~ fval_eq l u ->
+  exists r, simplest_in_spec l u = Ok r /\ Z.gcd (fst r) (snd r) = 1 /\
+    ((fval_lt l u /\ simplest_between l u r) \/ (fval_lt u l /\ simplest_between u l r)).
+Proof. exact simplest_in_spec_correct. Qed.
+Print Assumptions C18_simplest_in_spec_optimal.
+
+Theorem C18_simplest_in_model_eq_spec : forall l u, 0 < snd l -> 0 < snd u ->
+  simplest_in_asis l u = simplest_in_spec l u.
+Proof. exact simplest_in_asis_spec. Qed.
+Print Assumptions C18_simplest_in_model_eq_spec.
+
+Theorem C18_simplest_in_model_optimal : forall l u, 0 < snd l -> 0 < snd u -> ~ fval_eq l u ->
+  exists r, simplest_in_asis l u = Ok r /\ Z.gcd (fst r) (snd r) = 1 /\
+    ((fval_lt l u /\ simplest_between l u r) \/ (fval_lt u l /\ simplest_between u l r)).
+Proof. exact simplest_in_asis_optimal. Qed.
+Print Assumptions C18_simplest_in_model_optimal.
+
+Theorem C18_simplest_in_equal_end_points : forall l u, 0 < snd l -> 0 < snd u -> fval_eq l u ->
+  simplest_in_asis l u = Ok (freduce l).
+Proof. exact simplest_in_asis_equal. Qed.
+Print Assumptions C18_simplest_in_equal_end_points.
+
+(** the two-sided continued-fraction loop of Repr::simplest_in is the Stern-Brocot recursion *)
+Theorem C18_cf_loop : forall l u, pos_itv l u -> cf_loop l u = simplest_pos l u.
+Proof. exact cf_loop_spec. Qed.
+Print Assumptions C18_cf_loop.
+
+(** ** farey_neighbors, next_up, next_down, nearest *)
+Theorem C18_farey_neighbors : forall x L, 1 <= L -> L < snd x -> Z.gcd (fst x) (snd x) = 1 ->
+  Z.abs (fst x) <= snd x ->
+  exists l r, farey_neighbors_asis x L = Ok (l, r) /\ farey_pair L x l r.
+Proof. exact farey_neighbors_asis_ok. Qed.
+Print Assumptions C18_farey_neighbors.
+
+Theorem C18_farey_adjacent : forall ln ld rn rd n m, 0 < ld -> 0 < rd -> rn * ld - ln * rd = 1 ->
+  0 < m -> ln * m < n * ld -> n * rd < rn * m -> ld + rd <= m.
+Proof. exact farey_adjacent. Qed.
+Print Assumptions C18_farey_adjacent.
+
+Theorem C18_next_up : forall x L, 1 <= L -> 0 < snd x -> Z.gcd (fst x) (snd x) = 1 ->
+  exists r, next_up_asis x L = Ok r /\ is_succ x L r.
+Proof. exact next_up_asis_correct. Qed.
+Print Assumptions C18_next_up.
+
+Theorem C18_next_down : forall x L, 1 <= L -> 0 < snd x -> Z.gcd (fst x) (snd x) = 1 ->
+  exists r, next_down_asis x L = Ok r /\ is_pred x L r.
+Proof. exact next_down_asis_correct. Qed.
+Print Assumptions C18_next_down.
+
+Theorem C18_nearest : forall x L, 1 <= L -> 0 < snd x -> Z.gcd (fst x) (snd x) = 1 ->
+  (snd x <= L -> nearest_asis x L = Ok (AExact x)) /\
+  (L < snd x -> exists r sg, nearest_asis x L = Ok (AInexact r sg) /\ is_nearest x L r /\
+     ((sg = Positive /\ is_succ x L r) \/ (sg = Negative /\ is_pred x L r))).
+Proof. exact nearest_asis_correct. Qed.
+Print Assumptions C18_nearest.
+
+Theorem C18_limit_zero : forall x,
+  next_up_asis x 0 = Panic DivideBy0 /\ next_down_asis x 0 = Panic DivideBy0 /\ nearest_asis x 0 = Panic DivideBy0.
+Proof. exact (fun x => conj (proj1 (next_limit_zero x)) (conj (proj2 (next_limit_zero x)) (nearest_limit_zero x))). Qed.
+Print Assumptions C18_limit_zero.
+
+(** ** the oracle's verdict functions are sound for the declarative notions above *)
+Theorem C18_next_up_check_sound : forall x L r, 0 < snd x -> next_up_check x L r = Ok true -> is_succ x L r.
+Proof. exact next_up_check_sound. Qed.
+Print Assumptions C18_next_up_check_sound.
+
+Theorem C18_next_down_check_sound : forall x L r, 0 < snd x -> next_down_check x L r = Ok true -> is_pred x L r.
+Proof. exact next_down_check_sound. Qed.
+Print Assumptions C18_next_down_check_sound.
+
+Theorem C18_nearest_check_sound : forall x L r sg, 0 < snd x -> nearest_check x L r sg = Ok true ->
+  is_nearest x L r /\ ((sg = Positive /\ fval_lt x r) \/ (sg = Negative /\ fval_lt r x)).
+Proof. exact nearest_check_sound. Qed.
+Print Assumptions C18_nearest_check_sound.
+
+(** ** findings: the repaired defects stay refuted on the pinned bodies, the open ones on the as-is models *)
+Theorem C18_F01_is_simpler_than_pinned_refuted :
+  simpler (1, 2) (5, 3) = true /\ is_simpler_than_pinned (1, 2) (5, 3) = false.
+Proof. exact is_simpler_than_pinned_refuted. Qed.
+Print Assumptions C18_F01_is_simpler_than_pinned_refuted.
+
+Theorem C18_F02_simplest_in_pinned_refuted :
+  simplest_in_pinned_shortcut (-1, 2) (0, 1) = true /\ simplest_in_spec (-1, 2) (0, 1) = Ok (-1, 3).
+Proof. exact simplest_in_pinned_refuted. Qed.
+Print Assumptions C18_F02_simplest_in_pinned_refuted.
+
+Theorem C18_F03_next_up_pinned_refuted :
+  next_up_pinned (3, 1) 1 = Panic Undocumented /\ next_up_asis (3, 1) 1 = Ok (4, 1).
+Proof. exact next_up_pinned_refuted. Qed.
+Print Assumptions C18_F03_next_up_pinned_refuted.
+
+Theorem C18_F04_simplest_from_ieee_refuted :
+  known_ieee 23 8 1275068416 = true /\
+  simplest_from_ieee_asis 23 8 1275068416 = Ok (Some (33554432, 1)) /\
+  simplest_from_ieee_spec 23 8 1275068416 = Ok (Some (33554431, 1)).
+Proof. exact simplest_from_ieee_asis_refuted. Qed.
+Print Assumptions C18_F04_simplest_from_ieee_refuted.
+
+Theorem C18_F05_halfeven_refuted :
+  fnormalize 2 5 1 = (5, 1) /\ known_float 2 MHalfEven 3 5 = true /\
+  simplest_from_float_asis 2 MHalfEven 3 5 1 = Ok (Some (9, 1)) /\
+  simplest_from_float_spec 2 MHalfEven 3 5 1 = Ok (Some (10, 1)) /\
+  round_to_prec 2 MHalfEven 3 (9, 1) = (8, 1).
+Proof. exact simplest_from_float_halfeven_refuted. Qed.
+Print Assumptions C18_F05_halfeven_refuted.
+
+Theorem C18_F06_oddbase_refuted :
+  known_float 3 MHalfEven 1 1 = true /\
+  simplest_from_float_asis 3 MHalfEven 1 1 (-1) = Ok (Some (1, 2)) /\
+  simplest_from_float_spec 3 MHalfEven 1 1 (-1) = Ok (Some (1, 3)).
+Proof. exact simplest_from_float_oddbase_refuted. Qed.
+Print Assumptions C18_F06_oddbase_refuted.
+
+Theorem C18_F07_powbase_refuted :
+  known_float 3 MAway 1 1 = true /\
+  simplest_from_float_asis 3 MAway 1 1 1 = Ok (Some (1, 1)) /\
+  simplest_from_float_spec 3 MAway 1 1 1 = Ok (Some (3, 1)).
+Proof. exact simplest_from_float_powbase_refuted. Qed.
+Print Assumptions C18_F07_powbase_refuted.
+
+Theorem C18_F08_unlimited_refuted :
+  known_float 10 MAway 0 123 = true /\
+  simplest_from_float_asis 10 MAway 0 123 (-1) = Panic UnlimitedPrecision /\
+  simplest_from_float_spec 10 MAway 0 123 (-1) = Ok (Some (123, 10)).
+Proof. exact simplest_from_float_unlimited_refuted. Qed.
+Print Assumptions C18_F08_unlimited_refuted.
